@@ -225,10 +225,19 @@ func c12CheckMetricsJSON(pfx string, out []byte, bounds []time.Duration, want []
 func c12Renderings(R *ev.Run, pfx string, h *vegeta.Histogram, bounds []time.Duration, want []uint64) (bad []c12Bad) {
 	var buf bytes.Buffer
 	R.Trans(3)
-	if err := c12Catch(func() error { return vegeta.NewHistogramReporter(h).Report(&buf) }); err != nil {
+	rep := vegeta.NewHistogramReporter(h)
+	if err := c12Catch(func() error { return rep.Report(&buf) }); err != nil {
 		bad = append(bad, c12Bad{pfx + ":text:error", err.Error()})
 	} else {
 		bad = append(bad, c12CheckText(pfx+":text", buf.String(), bounds, want)...)
+		// periodic reporting renders one and the same reporter again and again: what it prints for an
+		// unchanged histogram is what it printed before
+		var again bytes.Buffer
+		if err := c12Catch(func() error { return rep.Report(&again) }); err != nil {
+			bad = append(bad, c12Bad{pfx + ":text:rendered-again:error", err.Error()})
+		} else if again.String() != buf.String() {
+			bad = append(bad, c12Bad{pfx + ":text:rendered-again:differs", fmt.Sprintf("first %q, second %q", ev.Trunc(buf.String(), 300), ev.Trunc(again.String(), 600))})
+		}
 	}
 	var js []byte
 	if err := c12Catch(func() (err error) { js, err = json.Marshal(h); return }); err != nil {
